@@ -64,6 +64,21 @@ def exc_site(exc) -> str:
     return f"{type(exc).__name__}@{site or 'outside-hexital'}"
 
 
+def filled_size(rows, timeframes):
+    """Number of candles the library may legitimately hold/compute for `rows`: with gap filling one
+    candle per bucket of the covered span and timeframe.  Step budgets scale with this, not only with
+    the number of delivered candles."""
+    from .util import tf_seconds
+
+    n = len(rows)
+    if rows:
+        span = rows[-1][0] - rows[0][0]
+        for tf in timeframes:
+            if tf:
+                n += span // tf_seconds(tf)
+    return n
+
+
 class LibError(Exception):
     """An exception that escaped a library call (wrapped, with its site)."""
 
